@@ -57,6 +57,11 @@ def update_monitor(run: Any) -> list[Any]:
         return [(f"C15 {sc.name} accepts missing state", "update accepted a from/to state that does not exist in the graph", {})]
     if run.crash is not None:
         return [(f"C15 {sc.name} crash", f"traversal failed: {run.crash}", {})]
+    from . import structure
+
+    for fp, what, detail in structure.worker_copies(run.graph, sc.name):
+        out.append((fp.replace("C09", "C15"), "update graph: " + what, detail))
+    out += [(fp.replace("C03", "C15"), what, d) for fp, what, d in monitors.c03(run) if "over budget" in fp]
     starts = [e for e in run.trace if e["kind"] == "start"]
     for vm in selected:
         frm = sc.vms_params.get(f"from_state_{vm}", sc.vms_params.get("from_state", "install"))
@@ -153,6 +158,8 @@ def plans(tier: str) -> list[dict[str, Any]]:
         P("update install..customize of vm1", T("u-default", {}, VM1), m, K=1, statuses=["PASS", "FAIL"], max_nonpass=1),
         P("update customize..customize of vm1", T("u-cc", {"from_state": "customize", "to_state": "customize"}, VM1), m, K=1, statuses=["PASS"], pool_fixed={"install": ["own", "shared"]}),
         P("update customize..connect of vm1, install..customize of vm2, 2 workers", T("u-custom-2w", {"from_state_vm1": "customize", "to_state_vm1": "connect", "from_state_vm2": "install", "to_state_vm2": "customize"}, VM12, nets="net1 net2"), m, K=1, statuses=["PASS"], pool_fixed={"install": ["shared"]}),
+        P("update default of vm1 vm2, 3 workers", T("u-default-3w", {}, VM12, nets="net1 net2 net3"), m, K=1, statuses=["PASS"]),
+        P("update of the permanent vm3, 2 workers", T("u-vm3", {}, {"vm3": "only Ubuntu\n"}, nets="net1 net2"), m, K=1, statuses=["PASS"]),
         P("update with a nonexistent target state", T("u-bad-to", {"to_state": "nonexistent"}, VM1, expect_error=True), m, K=1, statuses=["PASS"]),
     ]
     if tier == "thorough":
